@@ -36,6 +36,7 @@ TYPE_DOPS: Dict[str, Dict[str, Any]] = {
     "byteslc": {"name": "byteslc", "dct": {"k": "STD", "base": "A_BYTEFIELD", "bits": 16}},
     "dtclc": {"kind": "dtcdop", "name": "dtclc", "dct": {"k": "STD", "base": "A_UINT32", "bits": 24},
               "dtcs": [{"name": "e1", "code": 0x12AB}, {"name": "e2", "code": 0x5C78}, {"name": "e3", "code": 0x9ABC}]},
+    "f64big": {"name": "f64big", "dct": {"k": "STD", "base": "A_FLOAT64", "bits": 64}},
 }
 OWN_DID_FLAG = 0x0080
 OWN_PAD = 0xEE  # constant byte in front of the payload of a variant's own re-definition of a service ...
@@ -85,6 +86,8 @@ def out_param_path(svc: Dict[str, Any], tgt: str) -> Dict[str, str]:
     """How a matching parameter addresses its target: {"snref": name} or {"snpathref": dotted path}."""
     if tgt == "nrc":
         return {"snref": "nrc"}
+    if tgt == "gsid":
+        return {"snref": "gsid"}
     layout = svc["layout"]
     if layout in ("tworesp", "tworesp_r"):
         return {"snref": "rev"}
@@ -130,8 +133,8 @@ def neg_response() -> Dict[str, Any]:
 def global_neg_response() -> Dict[str, Any]:
     return {"kind": "GLOBAL-NEG-RESPONSE", "name": "GNR",
             "params": [{"t": "CODED-CONST", "name": "sid", "dct": U8, "value": 0x7F},
-                       {"t": "VALUE", "name": "rq_sid", "dop": "u8"},
-                       {"t": "NRC-CONST", "name": "nrc", "dct": U8, "values": [0x10, 0x11]}]}
+                       {"t": "VALUE", "name": "gsid", "dop": "u8"},  # only the global negative response has a parameter of this name
+                       {"t": "NRC-CONST", "name": "gnrc", "dct": U8, "values": [0x10, 0x31]}]}  # 0x31: it decodes the NEG reply 7F 22 31
 
 
 def matching_parameter_xml(mp: Dict[str, Any], svc: Dict[str, Any], base: bool) -> str:
@@ -195,5 +198,9 @@ def variants_db(services: Dict[str, Dict[str, Any]], cands: Sequence[Dict[str, A
             nr = neg_response()  # the layer's own copy of the negative response (ID <layer>.NR)
             nr["params"][2]["snref"] = True
             lay.update(msgs=[nr] + omsgs, svcs=osvcs)
+        if c.get("gnr"):  # the candidate's own copy of the global negative response (overrides the inherited one)
+            g = global_neg_response()
+            g["params"][1]["snref"] = True
+            lay["msgs"] = list(lay.get("msgs", [])) + [g]
         layers.append(lay)
     return {"containers": [{"name": "VM", "layers": layers}]}
